@@ -114,7 +114,25 @@ def pick_patterns(vs, body, limit=4):
     return None
 
 
-def forall(vs, body, patterns=None):
+_qctr = itertools.count()
+
+
+def _qid(pats, tag=''):
+    head = ''
+    try:
+        p0 = pats[0]
+        t = p0.children()[0] if isinstance(p0, z3.PatternRef) else p0
+        head = t.decl().name()
+        if head == 'select' and t.num_args():
+            a = t.arg(0)
+            head = 'sel_' + (a.decl().name() if z3.is_app(a) else '')
+    except Exception:
+        pass
+    import re
+    return re.sub(r'[^A-Za-z0-9_]', '_', f'q{next(_qctr)}_{tag}{head}')[:60]
+
+
+def forall(vs, body, patterns=None, tag=''):
     """ForAll with explicit E-matching patterns where they are legal, inferred patterns otherwise."""
     if patterns:
         ok = True
@@ -124,7 +142,7 @@ def forall(vs, body, patterns=None):
                 ok = False
         if ok:
             try:
-                return z3.ForAll(vs, body, patterns=patterns)
+                return z3.ForAll(vs, body, patterns=patterns, qid=_qid(patterns, tag))
             except z3.Z3Exception:
                 pass
     try:
@@ -133,12 +151,12 @@ def forall(vs, body, patterns=None):
         if os.environ.get('PYVC_DEBUG'):
             print('PICK', [p.sexpr()[:90].replace(chr(10), ' ') for p in (pats or [])])
         if pats:
-            return z3.ForAll(vs, body, patterns=pats)
+            return z3.ForAll(vs, body, patterns=pats, qid=_qid(pats, tag))
     except z3.Z3Exception as ex:
         import os
         if os.environ.get('PYVC_DEBUG'):
             print('pick_patterns failed:', ex, [p.sexpr()[:100] for p in (pats or [])])
-    return z3.ForAll(vs, body)
+    return z3.ForAll(vs, body, qid=f'q{next(_qctr)}_{tag}auto')
 
 
 # --------------------------------------------------------------------------- sorts
@@ -207,11 +225,14 @@ KSetInt = _Prim('Set[Int]', SetIntS)    # (frozen)set of ints as a characteristi
 
 
 class KRef(Kind):
-    """Reference to a heap object; `cls` is a static class hint (may be None)."""
+    """Reference to a heap object; `cls` is a static class hint (may be None).  `classes` optionally
+    lists the dynamic classes a field of unknown static class may hold (a type invariant, e.g.
+    Tensor | Future | None)."""
 
-    def __init__(self, cls=None):
+    def __init__(self, cls=None, classes=None):
         self.cls = cls
-        self.name = f'Ref[{cls}]' if cls else 'Ref'
+        self.classes = tuple(classes) if classes else None
+        self.name = f'Ref[{cls}]' if cls else ('Ref' if not classes else 'Ref[' + '|'.join(classes) + ']')
 
     def sort(self):
         return z3.IntSort()
